@@ -136,4 +136,13 @@ var Templates = []string{
 	"a \"$(b \"c\")\"",
 	"a ${x:-$(b)}",
 	"a $@ $* $# $? $- $$ $! $0 $1",
+	"( (a) )",
+	"( (a); b )",
+	"a; ( (b) | c )",
+	"x=\"\" y=''",
+	"a \"\" '' b",
+	"for i in; do a; done",
+	"case x in esac",
+	"f() { a; } >f 2>&1",
+	"while a; do b; done <f | c",
 }
